@@ -1891,7 +1891,8 @@ func (this *decodingTask) decode(res *decodingTaskResult) {
 
 	// After completion of the bitstream reading, increment the block id.
 	// It unblocks the task processing the next block (if any)
-	atomic.StoreInt32(this.processedBlockID, this.currentBlockID)
+	// Do not overwrite a cancellation published by a failed task
+	atomic.CompareAndSwapInt32(this.processedBlockID, this.currentBlockID-1, this.currentBlockID)
 	verifHook(this.ctx, VH_D_PUB, this.currentBlockID, 0, 0, nil)
 
 	// Check if the block must be skipped
